@@ -1,7 +1,7 @@
 (* Line-protocol driver of the extracted write-side model of component `wsconc` (stdin -> stdout, one answer per line,
    flushed).
      init <d|q> <maxq>          new run: direct / queued mode, queue bound (0 = unbounded)          -> OK
-     b <id,id,...>              Begin fs                       -> B <refused 0|1>
+     b <id,id,...>              Begin fs                       -> B <- | closed | full>   (refused as a whole, or the call goes on)
      f <ok 0|1>                 Frame ok                       -> F <- | ok | closed | full | err> <head 0|1>
      w <ok 0|1>                 DWrite ok                      -> W
      a                          DAdvance                       -> A <exit 0|1>
@@ -33,7 +33,7 @@ let act (a : action) : string =
   let o = observe !mode !maxq !s a in
   s := step !mode !maxq !s a;
   let head = match o with
-    | OBegin r -> Printf.sprintf "B %d" (b01 r)
+    | OBegin r -> Printf.sprintf "B %s" (match r with None -> "-" | Some r -> res_name r)
     | OFrame (r, h) -> Printf.sprintf "F %s %d" (match r with None -> "-" | Some r -> res_name r) (b01 h)
     | ODWrite -> "W"
     | OAdv e -> Printf.sprintf "A %d" (b01 e)
